@@ -40,7 +40,7 @@ theorem initPhase_step {cfg : Cfg} {root : Stage} {s s' : State} {n : Nat} (hi :
 
 /-- the invariant once the root stage is registered, for runs without panics -/
 structure MainNP (cfg : Cfg) (s : State) : Prop where
-  np : cfg.stageRecover = true ∨ StagesOK (fun st => st.noPanic = true) s
+  np : StagesOK (fun st => st.clean cfg = true) s
   g0 : gap s = 0
   wf : WF s
   cnt : Cnt s
@@ -50,28 +50,19 @@ structure MainNP (cfg : Cfg) (s : State) : Prop where
   will : s.sh.pending = 0 → s.sh.completed = true ∨ 0 < tsum Instr.fires s.threads
   quiet : 0 < tsum Instr.fires s.threads → s.sh.pending = 0
 
-theorem mainNP_first {cfg : Cfg} {root : Stage} (hnp : cfg.stageRecover = true ∨ root.noPanic = true) {s : State}
+theorem mainNP_first {cfg : Cfg} {root : Stage} (hnp : root.clean cfg = true) {s : State}
     (hsh : s.sh = { (init root).sh with pending := 1, registered := 1 })
     (ht : s.threads = [⟨false, [.launch root]⟩]) : MainNP cfg s := by
   cases s with
   | mk sh threads =>
     simp only at hsh ht
     subst hsh ht
-    refine ⟨?_, ?_, ?_, ?_, ?_, ?_, ?_, ?_, ?_⟩
-    · rcases hnp with h | h
-      · exact Or.inl h
-      · right; simp [StagesOK, Instr.stageOK, h]
-    all_goals simp [gap, init, Instr.owed, WF, wfCode, Instr.startLike, Cnt, Instr.fires]
+    refine ⟨?_, ?_, ?_, ?_, ?_, ?_, ?_, ?_, ?_⟩ <;>
+      simp [StagesOK, Instr.stageOK, hnp, gap, init, Instr.owed, WF, wfCode, Instr.startLike, Cnt, Instr.fires]
 
-theorem np_noLoss {cfg : Cfg} {s : State} (h : cfg.stageRecover = true ∨ StagesOK (fun st => st.noPanic = true) s) :
-    ∀ t ∈ s.threads, ∀ i ∈ t.code, i.noLoss cfg := by
-  intro t ht i hi
-  cases i <;> simp only [Instr.noLoss]
-  rename_i st
-  rcases h with h | h
-  · exact Or.inl h
-  · have := h t ht (.exec st) hi
-    exact Or.inr ((Stage.noPanic_iff st).mp this).1
+theorem np_noLoss {cfg : Cfg} {s : State} (h : StagesOK (fun st => st.clean cfg = true) s) :
+    ∀ t ∈ s.threads, ∀ i ∈ t.code, i.noLoss cfg :=
+  fun t ht i hi => noLoss_of_clean (h t ht i hi)
 
 /-- while `pending ≠ 0` and nothing is pending for `complete`: an instruction leaves the pipeline
 uncompleted, and asks for `complete` exactly when it brings `pending` to zero -/
@@ -85,15 +76,12 @@ theorem stepInstr_quiet (cfg : Cfg) (sh : Shared) (pooled : Bool) (i : Instr) (r
         csum Instr.fires (stepInstr cfg sh pooled i rest).code = 1) ∧
     ((stepInstr cfg sh pooled i rest).sh.pending ≠ 0 ∨ sh.pending = 0 →
         csum Instr.fires (stepInstr cfg sh pooled i rest).code = 0) := by
-  cases i <;> simp only [stepInstr] <;> (repeat' split) <;>
-    simp_all [Instr.fires, Instr.noLoss] <;> omega
+  cases i <;> simp only [stepInstr, panicEff] <;> (repeat' split) <;>
+    simp_all [Instr.fires, Instr.noLoss, Outcome.panics] <;> omega
 
 theorem mainNP_step {cfg : Cfg} {s s' : State} {n : Nat} (hinv : MainNP cfg s)
     (h : stepAt cfg s n = some s') : MainNP cfg s' := by
-  have hnp' : cfg.stageRecover = true ∨ StagesOK (fun st => st.noPanic = true) s' := by
-    rcases hinv.np with h1 | h1
-    · exact Or.inl h1
-    · exact Or.inr (step_stagesOK noPanic_hereditary h1 h)
+  have hnp' := step_stagesOK (clean_hereditary cfg) hinv.np h
   have hg' : gap s' = 0 := (step_gap_eq h (np_noLoss hinv.np)).trans hinv.g0
   have hwf' := step_wf hinv.wf h
   have hcnt' := step_cnt hinv.cnt h
@@ -203,7 +191,7 @@ theorem initPhase_not_terminal {root : Stage} {s : State} (hi : InitPhase root s
   · have := ht ⟨false, [.register root]⟩ (by rw [h]; simp)
     simp at this
 
-theorem invNP_reachable {cfg : Cfg} {root : Stage} {s : State} (hnp : cfg.stageRecover = true ∨ root.noPanic = true)
+theorem invNP_reachable {cfg : Cfg} {root : Stage} {s : State} (hnp : root.clean cfg = true)
     (hr : Reachable cfg (init root) s) : InitPhase root s ∨ MainNP cfg s := by
   refine Reachable.invariant (P := fun s => InitPhase root s ∨ MainNP cfg s) (Or.inl (initPhase_init root)) ?_ hr
   intro s s' n hinv hs
